@@ -42,9 +42,9 @@ theorem CodeAt.tail {P : List (Instr Reg V)} {base : Nat} {x : Instr Reg V} {d :
 theorem comp_length (lit : Nat → V) (s : Stmt V) (base cl bl : Nat) : (comp lit s base cl bl).length = size s := by
   induction s generalizing base cl bl with
   | seq p q ihp ihq => simp [comp, size, ihp, ihq]
-  | ite c neg a b p q ihp ihq => simp [comp, size, ihp, ihq, nopI] <;> omega
-  | ifThen c neg a b p ihp => simp [comp, size, ihp, nopI]
-  | «while» c neg a b body ih => simp [comp, size, ih, nopI] <;> omega
+  | ite c neg args p q ihp ihq => simp [comp, size, ihp, ihq, nopI] <;> omega
+  | ifThen c neg args p ihp => simp [comp, size, ihp, nopI]
+  | «while» c neg args body ih => simp [comp, size, ih, nopI] <;> omega
   | loop body ih => simp [comp, size, ih, nopI] <;> omega
   | _ => simp [comp, size]
 
@@ -93,14 +93,24 @@ theorem step_jmp (lit : Nat → V) (n : Nat) (hl : sem.toAddr (lit n) = some n) 
     step sem env P (mk σ mem pc) = mk σ mem n := by
   simp [step, mk, h, IC10.exec, target, eval_num, hl, applyOut, writeBack, updOpt]
 
-theorem step_br (lit : Nat → V) (c : String) (a b : Opnd Reg V) (n : Nat) (hl : sem.toAddr (lit n) = some n)
-    (h : P[pc]? = some ⟨.br c, none, [a, b, .num (lit n)]⟩) :
+theorem dropLast_snoc' {α : Type} (l : List α) (a : α) : (l ++ [a]).dropLast = l := by simp
+theorem getLastD_snoc' {α : Type} (l : List α) (a d : α) : (l ++ [a]).getLastD d = a := by
+  induction l with
+  | nil => rfl
+  | cons x xs ih => cases xs <;> simp_all [List.getLastD]
+
+theorem step_br (lit : Nat → V) (c : String) (args : List (Opnd Reg V)) (n : Nat) (hl : sem.toAddr (lit n) = some n)
+    (h : P[pc]? = some ⟨.br c, none, args ++ [.num (lit n)]⟩) :
     step sem env P (mk σ mem pc) =
-      if sem.cond c [a.eval σ.regs, b.eval σ.regs] then mk σ mem n else mk σ mem (pc + 1) := by
-  by_cases hc : sem.cond c [a.eval σ.regs, b.eval σ.regs] = true
-  · simp [step, mk, h, IC10.exec, target, eval_num, hl, hc, applyOut, writeBack, updOpt, List.dropLast, List.getLastD]
-  · have hc' : sem.cond c [a.eval σ.regs, b.eval σ.regs] = false := by simpa using hc
-    simp [step, mk, h, IC10.exec, eval_num, hc', applyOut, writeBack, updOpt, List.dropLast, List.getLastD]
+      if sem.cond c (evalArgs σ.regs args) then mk σ mem n else mk σ mem (pc + 1) := by
+  have hv : (args ++ [Opnd.num (lit n)]).map (Opnd.eval σ.regs) = evalArgs σ.regs args ++ [lit n] := by
+    simp [evalArgs, Opnd.eval]
+  by_cases hc : sem.cond c (evalArgs σ.regs args) = true
+  · simp only [step, mk, h, IC10.exec, hv, dropLast_snoc', getLastD_snoc', hc, if_true, target, hl, applyOut, writeBack, updOpt, Bool.false_eq_true, if_false]
+    simp
+  · have hc' : sem.cond c (evalArgs σ.regs args) = false := by simpa using hc
+    simp only [step, mk, h, IC10.exec, hv, dropLast_snoc', hc', Bool.false_eq_true, if_false, applyOut, writeBack, updOpt]
+    simp
 
 end steps
 
@@ -227,13 +237,13 @@ theorem claim_stmt (sem : Sem V) (env : Env V) (lit : Nat → V) (hlit : ∀ n, 
         simp only [Res.timeout.injEq] at h
         obtain ⟨k1, pc, hle, hk1⟩ := (ihp hnp base cl bl σ hcp).2 σ1 hp
         exact ⟨k1, pc, hle, by rw [hk1, h]⟩
-  | ite c neg a b p q ihp ihq =>
+  | ite c neg args p q ihp ihq =>
     intro hn base cl bl σ hc
     obtain ⟨hneg, hnp, hnq⟩ := hn
     -- layout: br ; p ; jmp ; nop ; q ; nop
-    have hbr : P[base]? = some ⟨.br neg, none, [a, b, .num (lit (base + size p + 2))]⟩ := by
+    have hbr : P[base]? = some ⟨.br neg, none, args ++ [.num (lit (base + size p + 2))]⟩ := by
       have := hc 0 (by simp [comp]); simpa [comp] using this
-    have hcode : CodeAt P base ([⟨.br neg, none, [a, b, .num (lit (base + size p + 2))]⟩] ++ (comp lit p (base + 1) cl bl ++
+    have hcode : CodeAt P base ([⟨.br neg, none, args ++ [.num (lit (base + size p + 2))]⟩] ++ (comp lit p (base + 1) cl bl ++
         ([⟨.jmp, none, [.num (lit (base + size p + size q + 3))]⟩, nopI] ++ (comp lit q (base + size p + 3) cl bl ++ [nopI])))) := by
       simpa [comp, List.append_assoc] using hc
     have h1 := hcode.right
@@ -257,9 +267,9 @@ theorem claim_stmt (sem : Sem V) (env : Env V) (lit : Nat → V) (hlit : ∀ n, 
       have e : base + 1 + size p + (0 + 1 + 1) + size q = base + size p + 3 + size q := by omega
       rw [e] at this
       have := this 0 (by simp); simpa using this
-    have hstep := step_br sem env P σ mem base lit neg a b (base + size p + 2) (hlit _) hbr
-    rw [hneg] at hstep
-    by_cases hb : sem.cond c [a.eval σ.regs, b.eval σ.regs] = true
+    have hstep := step_br sem env P σ mem base lit neg args (base + size p + 2) (hlit _) hbr
+    rw [hneg _ (by simp [evalArgs])] at hstep
+    by_cases hb : sem.cond c (evalArgs σ.regs args) = true
     · -- then-branch: falls through the branch, runs p, jumps to the end
       simp only [hb, Bool.not_true, Bool.false_eq_true, if_false] at hstep
       have hjstep : ∀ σ1 : SSt V, step sem env P (mk σ1 mem (base + 1 + size p)) = mk σ1 mem (base + size p + size q + 3) :=
@@ -290,7 +300,7 @@ theorem claim_stmt (sem : Sem V) (env : Env V) (lit : Nat → V) (hlit : ∀ n, 
         obtain ⟨k1, pc, hle, hk1⟩ := (ihp hnp (base + 1) cl bl σ hcp).2 σ' h
         exact ⟨1 + k1, pc, by omega, by rw [run_add, run_one, hstep, hk1]⟩
     · -- else-branch: the branch is taken to the else label
-      have hb' : sem.cond c [a.eval σ.regs, b.eval σ.regs] = false := by simpa using hb
+      have hb' : sem.cond c (evalArgs σ.regs args) = false := by simpa using hb
       simp only [hb', Bool.not_false, if_true] at hstep
       have hlstep : step sem env P (mk σ mem (base + size p + 2)) = mk σ mem (base + size p + 3) := by
         have e : base + size p + 2 = base + 1 + size p + 1 := by omega
@@ -318,12 +328,12 @@ theorem claim_stmt (sem : Sem V) (env : Env V) (lit : Nat → V) (hlit : ∀ n, 
         simp only [exec, hb', Bool.false_eq_true, if_false] at h
         obtain ⟨k1, pc, hle, hk1⟩ := (ihq hnq (base + size p + 3) cl bl σ hcq).2 σ' h
         exact ⟨1 + (1 + k1), pc, by omega, by rw [run_add, run_add, run_one, run_one, hstep, hlstep, hk1]⟩
-  | ifThen c neg a b p ihp =>
+  | ifThen c neg args p ihp =>
     intro hn base cl bl σ hc
     obtain ⟨hneg, hnp⟩ := hn
-    have hbr : P[base]? = some ⟨.br neg, none, [a, b, .num (lit (base + size p + 1))]⟩ := by
+    have hbr : P[base]? = some ⟨.br neg, none, args ++ [.num (lit (base + size p + 1))]⟩ := by
       have := hc 0 (by simp [comp]); simpa [comp] using this
-    have hcode : CodeAt P base ([⟨.br neg, none, [a, b, .num (lit (base + size p + 1))]⟩] ++ (comp lit p (base + 1) cl bl ++ [nopI, nopI])) := by
+    have hcode : CodeAt P base ([⟨.br neg, none, args ++ [.num (lit (base + size p + 1))]⟩] ++ (comp lit p (base + 1) cl bl ++ [nopI, nopI])) := by
       simpa [comp, List.append_assoc] using hc
     have h1 := hcode.right
     simp only [List.length_singleton] at h1
@@ -332,13 +342,13 @@ theorem claim_stmt (sem : Sem V) (env : Env V) (lit : Nat → V) (hlit : ∀ n, 
     rw [comp_length] at h2
     have hl1 : P[base + 1 + size p]? = some nopI := by have := h2 0 (by simp); simpa using this
     have hl2 : P[base + 1 + size p + 1]? = some nopI := by have := h2 1 (by simp); simpa using this
-    have hstep := step_br sem env P σ mem base lit neg a b (base + size p + 1) (hlit _) hbr
-    rw [hneg] at hstep
+    have hstep := step_br sem env P σ mem base lit neg args (base + size p + 1) (hlit _) hbr
+    rw [hneg _ (by simp [evalArgs])] at hstep
     have hn1 : ∀ σ1 : SSt V, step sem env P (mk σ1 mem (base + 1 + size p)) = mk σ1 mem (base + 1 + size p + 1) :=
       fun σ1 => step_nop sem env P σ1 mem _ hl1
     have hn2 : ∀ σ1 : SSt V, step sem env P (mk σ1 mem (base + 1 + size p + 1)) = mk σ1 mem (base + 1 + size p + 1 + 1) :=
       fun σ1 => step_nop sem env P σ1 mem _ hl2
-    by_cases hb : sem.cond c [a.eval σ.regs, b.eval σ.regs] = true
+    by_cases hb : sem.cond c (evalArgs σ.regs args) = true
     · simp only [hb, Bool.not_true, Bool.false_eq_true, if_false] at hstep
       constructor
       · intro e σ' h
@@ -360,7 +370,7 @@ theorem claim_stmt (sem : Sem V) (env : Env V) (lit : Nat → V) (hlit : ∀ n, 
         simp only [exec, hb, if_true] at h
         obtain ⟨k1, pc, hle, hk1⟩ := (ihp hnp (base + 1) cl bl σ hcp).2 σ' h
         exact ⟨1 + k1, pc, by omega, by rw [run_add, run_one, hstep, hk1]⟩
-    · have hb' : sem.cond c [a.eval σ.regs, b.eval σ.regs] = false := by simpa using hb
+    · have hb' : sem.cond c (evalArgs σ.regs args) = false := by simpa using hb
       simp only [hb', Bool.not_false, if_true] at hstep
       constructor
       · intro e σ' h
@@ -374,16 +384,16 @@ theorem claim_stmt (sem : Sem V) (env : Env V) (lit : Nat → V) (hlit : ∀ n, 
         exact congrArg (mk _ mem) (by simp only [size]; omega)
       · intro σ' h
         simp [exec, hb'] at h
-  | «while» c neg a b body ih =>
+  | «while» c neg args body ih =>
     intro hn base cl bl σ hc
     obtain ⟨hneg, hnb⟩ := hn
-    have hcode : CodeAt P base ([nopI] ++ ([⟨.br neg, none, [a, b, .num (lit (base + size body + 3))]⟩] ++
+    have hcode : CodeAt P base ([nopI] ++ ([⟨.br neg, none, args ++ [.num (lit (base + size body + 3))]⟩] ++
         (comp lit body (base + 2) base (base + size body + 3) ++ [⟨.jmp, none, [.num (lit base)]⟩, nopI]))) := by
       simpa [comp, List.append_assoc] using hc
     have hlab : P[base]? = some nopI := by have := hcode 0 (by simp); simpa using this
     have h1 := hcode.right
     simp only [List.length_singleton] at h1
-    have hbr : P[base + 1]? = some ⟨.br neg, none, [a, b, .num (lit (base + size body + 3))]⟩ := by
+    have hbr : P[base + 1]? = some ⟨.br neg, none, args ++ [.num (lit (base + size body + 3))]⟩ := by
       have := h1 0 (by simp); simpa using this
     have h2 := h1.right
     simp only [List.length_singleton] at h2
@@ -403,12 +413,12 @@ theorem claim_stmt (sem : Sem V) (env : Env V) (lit : Nat → V) (hlit : ∀ n, 
       rw [e] at this; simpa using this
     have hlstep : ∀ σ1 : SSt V, step sem env P (mk σ1 mem base) = mk σ1 mem (base + 1) := fun σ1 => step_nop sem env P σ1 mem _ hlab
     have hbstep : ∀ σ1 : SSt V, step sem env P (mk σ1 mem (base + 1)) =
-        if sem.cond c [a.eval σ1.regs, b.eval σ1.regs] then mk σ1 mem (base + 1 + 1) else mk σ1 mem (base + size body + 3) := by
+        if sem.cond c (evalArgs σ1.regs args) then mk σ1 mem (base + 1 + 1) else mk σ1 mem (base + size body + 3) := by
       intro σ1
-      have := step_br sem env P σ1 mem (base + 1) lit neg a b (base + size body + 3) (hlit _) hbr
-      rw [hneg] at this
+      have := step_br sem env P σ1 mem (base + 1) lit neg args (base + size body + 3) (hlit _) hbr
+      rw [hneg _ (by simp [evalArgs])] at this
       rw [this]
-      cases sem.cond c [a.eval σ1.regs, b.eval σ1.regs] <;> simp
+      cases sem.cond c (evalArgs σ1.regs args) <;> simp
     have hjstep : ∀ σ1 : SSt V, step sem env P (mk σ1 mem (base + 2 + size body)) = mk σ1 mem base :=
       fun σ1 => step_jmp sem env P σ1 mem _ lit base (hlit _) hjmp
     have hestep : ∀ σ1 : SSt V, step sem env P (mk σ1 mem (base + size body + 3)) = mk σ1 mem (base + size body + 4) := by
@@ -423,11 +433,11 @@ theorem claim_stmt (sem : Sem V) (env : Env V) (lit : Nat → V) (hlit : ∀ n, 
       simp only [exec, Res.timeout.injEq] at h
       exact ⟨0, base, by omega, by simp [run, h]⟩
     | succ m =>
-      have hw := hprev m rfl (.while c neg a b body) ⟨hneg, hnb⟩ base cl bl
+      have hw := hprev m rfl (.while c neg args body) ⟨hneg, hnb⟩ base cl bl
       constructor
       · intro e σ' h
         simp only [exec] at h
-        by_cases hb : sem.cond c [a.eval σ.regs, b.eval σ.regs] = true
+        by_cases hb : sem.cond c (evalArgs σ.regs args) = true
         · rw [if_pos hb] at h
           cases hbd : exec sem env (m + 1) body σ with
           | ok e1 σ1 =>
@@ -455,7 +465,7 @@ theorem claim_stmt (sem : Sem V) (env : Env V) (lit : Nat → V) (hlit : ∀ n, 
               simp only [land]
               exact congrArg (mk _ mem) (by simp only [size]; omega)
           | timeout σ1 => rw [hbd] at h; simp at h
-        · have hb' : sem.cond c [a.eval σ.regs, b.eval σ.regs] = false := by simpa using hb
+        · have hb' : sem.cond c (evalArgs σ.regs args) = false := by simpa using hb
           rw [if_neg hb] at h
           simp only [Res.done, Res.ok.injEq] at h
           obtain ⟨rfl, rfl⟩ := h
@@ -465,7 +475,7 @@ theorem claim_stmt (sem : Sem V) (env : Env V) (lit : Nat → V) (hlit : ∀ n, 
           exact congrArg (mk _ mem) (by simp only [size]; omega)
       · intro σ' h
         simp only [exec] at h
-        by_cases hb : sem.cond c [a.eval σ.regs, b.eval σ.regs] = true
+        by_cases hb : sem.cond c (evalArgs σ.regs args) = true
         · rw [if_pos hb] at h
           cases hbd : exec sem env (m + 1) body σ with
           | ok e1 σ1 =>
